@@ -65,11 +65,11 @@ def table_inv(dom, val, i, key, value, last):
     ]
 
 
-def verify_set_thread_map(run, tier):
+def verify_set_thread_map(run, tier, prefix_root='C02'):
     sess = Session()
     it = sess.it
     fq = MOD + ':KdBufParser.set_thread_map'
-    prefix = 'C02/set_thread_map'
+    prefix = prefix_root + '/set_thread_map'
     tidf, pidf, namef = z3.Function('tm.tid', I, I), z3.Function('tm.pid', I, I), z3.Function('tm.name', I, I)
     state = {}
 
